@@ -160,12 +160,27 @@ func (propC08) Gen(seed uint64, tier string, idx int) *Plan2 {
 			setup = append(setup, Op{K: "F"})
 		}
 		setup = append(setup, Op{K: "W>"})
+		reports := r.n(3) == 0
+		if reports {
+			// the other race: requests to one endpoint finish at the same moment, some failed, some fine, and
+			// report their outcomes concurrently, starting from a breaker that is closed with a few failures
+			// on the count (or just tripped); a sequential tail then observes what state that left
+			setup = setup[:0]
+			for i := r.n(7); i > 0; i-- {
+				setup = append(setup, Op{K: "F"})
+			}
+			p.Params["tail"] = true
+		}
 		p.Params["setup"] = len(setup)
 		nt := 2 + r.n(4)
 		p.Tasks = [][]Op{setup}
 		for t := 0; t < nt; t++ {
 			var ops []Op
 			for k := 1 + r.n(3); k > 0; k-- {
+				if reports {
+					ops = append(ops, Op{K: []string{"F", "F", "S", "A"}[r.n(4)]})
+					continue
+				}
 				ops = append(ops, Op{K: "A"})
 				if r.n(3) == 0 {
 					ops = append(ops, Op{K: []string{"S", "F"}[r.n(2)]})
@@ -174,6 +189,9 @@ func (propC08) Gen(seed uint64, tier string, idx int) *Plan2 {
 			p.Tasks = append(p.Tasks, ops)
 		}
 		p.Sub = fmt.Sprintf("%s/race-%dtasks", kind, nt)
+		if reports {
+			p.Sub = fmt.Sprintf("%s/race-reports-%dtasks", kind, nt)
+		}
 	}
 	return p
 }
@@ -504,6 +522,7 @@ func (propC08) Exec(p *Plan2, res *Result2) {
 	if len(p.Tasks) == 0 || len(p.Tasks[0]) != p.Int("setup", -1) {
 		return // the minimiser may not shrink the setup that opens the breaker
 	}
+	tail := p.Bool("tail", false)
 	rf := newRef(rp)
 	for _, op := range p.Tasks[0] {
 		switch op.K {
@@ -571,6 +590,29 @@ func (propC08) Exec(p *Plan2, res *Result2) {
 		res.Err = "stepcap"
 		return
 	}
+	if tail {
+		// what the race left behind, observed sequentially: ask, let the timeout pass, ask, a failed probe, ask,
+		// the timeout again, ask, a successful probe, ask
+		for _, k := range []string{"A", "W>", "A", "F", "A", "W>", "A", "S", "A"} {
+			if k == "W>" {
+				wait(k)
+				continue
+			}
+			call := tick()
+			var out bool
+			switch k {
+			case "A":
+				out = api.ask()
+			case "F":
+				api.fail()
+			case "S":
+				api.succeed()
+			}
+			ret := tick()
+			ops = append(ops, porcupine.Operation{ClientId: len(p.Tasks), Input: inp{k, now()}, Call: call, Output: out, Return: ret})
+			res.Hist = append(res.Hist, fmt.Sprintf("tail %s [%d,%d] t=%s -> %v", k, call, ret, now(), out))
+		}
+	}
 	init := make([]interface{}, 0, len(rf.states))
 	for _, st := range rf.states {
 		init = append(init, st)
@@ -602,10 +644,13 @@ func (propC08) Exec(p *Plan2, res *Result2) {
 	case "unifier":
 		bound = rp.N
 	}
+	if tail {
+		bound = -1 // (the racers of this variant start from a closed breaker: no probe window to count in)
+	}
 	if bound >= 0 && admitted > bound {
 		res.add("C08", "C08/"+kind+"/too-many-probes-admitted-in-half-open-race", "%d callers were admitted in the probe window before any outcome was reported, bound %d; %d context switches: %v", admitted, bound, s.Switches, res.Hist)
 	}
-	if asked > 0 && admittedEver == 0 {
+	if asked > 0 && admittedEver == 0 && !tail {
 		res.add("C08", "C08/"+kind+"/no-probe-admitted-after-timeout", "the timeout elapsed, %d callers asked before any outcome was reported and none was admitted: %v", asked, res.Hist)
 	}
 	// exploratory only (stronger than the statement): is the whole race history linearizable
@@ -613,6 +658,13 @@ func (propC08) Exec(p *Plan2, res *Result2) {
 	switch porcupine.CheckOperationsTimeout(model.ToModel(), ops, 20*time.Second) {
 	case porcupine.Illegal:
 		res.probe("c08.race-history-not-linearizable(" + kind + ")")
+		if tail {
+			// "consecutive failures with no success in between", "a success always clears the count", "re-opens
+			// on a failed probe": for reports that overlap these only mean something if the reports take effect
+			// in some order; a state that no order of them produces, and that the sequential tail then exposes,
+			// breaks them under every reading
+			res.add("C08", "C08/"+kind+"/concurrent-reports-leave-a-state-no-order-explains", "no order of the overlapping reports is consistent with what the breaker answered afterwards (%d context switches): %v", s.Switches, res.Hist)
+		}
 	case porcupine.Unknown:
 		res.probe("c08.porcupine-timeout")
 	default:
